@@ -44,6 +44,24 @@ pub fn run(ctx: &Ctx, ev: &mut Ev) {
         }
         tx.end(ev);
     } }
+    // (1b) all ordered pairs over the per-encoder class alphabet (state transitions: escapes, unmappable after a two-byte character)
+    if !tiny { for &enc in ALL.iter() {
+        let sec = format!("enc2:{}", enc.name());
+        if !ctx.want(&sec) && !ctx.want("enc2") { continue; }
+        if !ev.mine() { continue; }
+        if enc.output_encoding() == UTF_8 && enc != UTF_8 { continue; }
+        tx.begin(sec);
+        let alpha = encoder_alpha(enc);
+        for a in alpha.iter() { for b in alpha.iter() {
+            if !th && !encoder_families().contains(&enc) && (a + b) % 4 != 0 { continue; }
+            ev.case(); ev.nontrivial_enum();
+            let atoms = [*a, *b];
+            let mut h = H::new();
+            for src16 in [false, true] { let c = EncCase::whole(enc, src16, (a + b) % 2 == 0, &atoms); let o = drv.run_enc(&c, ev); h_eitems(&mut h, &o.items); h.b(&o.bytes).u(o.had_any as u64).u(o.fails.len() as u64); h_calls(&mut h, &o.calls); }
+            tx.case(h.get(), || format!("U+{:04X} U+{:04X}", a, b));
+        } }
+        tx.end(ev);
+    } }
     // (2) all 2-byte strings through every decoder (both sinks)
     if !tiny { for &enc in ALL.iter() {
         let sec = format!("dec2:{}", enc.name());
